@@ -462,6 +462,11 @@ structure Names where
   isPre : Nat → Bool
   isSc : Nat → Bool
   outermostOnly : Bool := false
+  /-- `popTag` pops the string-container stack only when it did NOT pop the whitespace stack (`elif` instead of the
+      second `if`, bs4/__init__.py:802): equivalent as long as no name is in both tables; kept in the model to show
+      that the emptiness of the side stacks after a parse — hence what `__getstate__` hands to pickle — depends on the
+      two tests being independent. -/
+  scElif : Bool := false
 
 /-- `tag == stack[-1]` in `popTag` (bs4/__init__.py:797-803): `Tag.__eq__` — same object: one frame; different name:
     one frame; otherwise it would recurse into the (still growing) contents: `deep` stands for whatever that costs -/
@@ -474,30 +479,32 @@ def popEqPops (t : PTag) : List PTag → List PTag
   | p :: rest => if p = t then rest else p :: rest
 
 /-- `popTag`: pops `tagStack`, compares the popped tag with the top of both side stacks -/
-def popTag (deep : Nat) (s : PState) : PState × Nat :=
+def popTag (nm : Names) (deep : Nat) (s : PState) : PState × Nat :=
   match s.stack with
   | [] => (s, call 0)
   | t :: rest =>
-    (⟨rest, popEqPops t s.pre, popEqPops t s.sc, s.next⟩, call (max (popEqCost deep t s.pre) (popEqCost deep t s.sc)))
+    let prePopped := s.pre.head? == some t
+    (⟨rest, popEqPops t s.pre, if nm.scElif && prePopped then s.sc else popEqPops t s.sc, s.next⟩,
+     call (max (popEqCost deep t s.pre) (popEqCost deep t s.sc)))
 
 /-- the `for i in range(stack_size - 1, 0, -1)` loop of `_popToTag` once the name is known to be open: pop until
     (and including) the most recent tag of that name -/
-def popTo (deep : Nat) (name : Nat) : Nat → PState → PState × Nat
+def popTo (nm : Names) (deep : Nat) (name : Nat) : Nat → PState → PState × Nat
   | 0, s => (s, 0)
   | fuel + 1, s =>
     match s.stack with
     | [] => (s, 0)
     | t :: _ =>
-      let (s', c) := popTag deep s
+      let (s', c) := popTag nm deep s
       if t.name = name then (s', c)
       else
-        let (s'', c') := popTo deep name fuel s'
+        let (s'', c') := popTo nm deep name fuel s'
         (s'', max c c')
 
 /-- `_popToTag(name)`: nothing when no tag of that name is open (`open_tag_counter`) -/
-def popToTag (deep : Nat) (name : Nat) (s : PState) : PState × Nat :=
+def popToTag (nm : Names) (deep : Nat) (name : Nat) (s : PState) : PState × Nat :=
   if s.stack.any (fun t => t.name = name) then
-    let (s', c) := popTo deep name s.stack.length s
+    let (s', c) := popTo nm deep name s.stack.length s
     (s', call c)
   else (s, call 0)
 
@@ -514,13 +521,13 @@ def endDataDepth (s : PState) : Nat := call (call (call (max (loop0 s.stack) (ca
 def step (nm : Names) (deep : Nat) (s : PState) : Ev → PState × Nat
   | .text => (s, cTokenizer + call 0)                             -- `handle_data`: `current_data.append`
   | .close name =>
-    let (s', c) := popToTag deep name s
+    let (s', c) := popToTag nm deep name s
     (s', cTokenizer + call (max (endDataDepth s) c))              -- `handle_endtag`: `endData`, `_popToTag`
   | .open name void =>
     let s1 := pushTag nm name s
     let c1 := call (max (endDataDepth s) (max (call cTagInit) (call 0)))   -- `handle_starttag`
     if void then
-      let (s2, c2) := popToTag deep name s1
+      let (s2, c2) := popToTag nm deep name s1
       (s2, cTokenizer + max c1 (call (max (endDataDepth s1) c2)))
     else (s1, cTokenizer + c1)
 
@@ -532,21 +539,39 @@ def run (nm : Names) (deep : Nat) : PState → List Ev → PState × Nat
     (s'', max c c')
 
 /-- the closing `while self.currentTag.name != ROOT_TAG_NAME: self.popTag()` of `_feed` -/
-def popAll (deep : Nat) : Nat → PState → Nat
+def popAll (nm : Names) (deep : Nat) : Nat → PState → Nat
   | 0, _ => 0
   | fuel + 1, s =>
     match s.stack with
     | [] => 0
     | _ :: _ =>
-      let (s', c) := popTag deep s
-      max c (popAll deep fuel s')
+      let (s', c) := popTag nm deep s
+      max c (popAll nm deep fuel s')
 
 def initState : PState := ⟨[], [], [], 0⟩
+
+/-- the state the closing loop of `_feed` leaves -/
+def closeAll (nm : Names) (deep : Nat) : Nat → PState → PState
+  | 0, s => s
+  | fuel + 1, s =>
+    match s.stack with
+    | [] => s
+    | _ :: _ => closeAll nm deep fuel (popTag nm deep s).1
+
+/-- the parser-side state of the document object after `_feed` -/
+def feedState (nm : Names) (deep : Nat) (evs : List Ev) : PState :=
+  let s := (run nm deep initState evs).1
+  closeAll nm deep s.stack.length s
+
+/-- the tree objects the document object's parser attributes still reference after a parse: what is left on
+    `tagStack` above the document object itself, on `preserve_whitespace_tag_stack` and on `string_container_stack`
+    (`_most_recent_element` is deleted by `__getstate__`, `currentTag` is `tagStack[-1]`) -/
+def leftover (s : PState) : List PTag := s.stack ++ s.pre ++ s.sc
 
 /-- `_feed`: `builder.feed(markup)` (every event), `endData`, then close what is still open -/
 def feedDepth (nm : Names) (deep : Nat) (evs : List Ev) : Nat :=
   let (s, c) := run nm deep initState evs
-  call (max c (max (endDataDepth s) (popAll deep s.stack.length s)))
+  call (max c (max (endDataDepth s) (popAll nm deep s.stack.length s)))
 
 /-- `BeautifulSoup(markup, "html.parser")`: constructor → `_feed` -/
 def parseDepth (nm : Names) (deep : Nat) (evs : List Ev) : Nat := call (call (feedDepth nm deep evs))
@@ -563,17 +588,22 @@ end
 
 /-! ### pickling a document (bs4/__init__.py:505-532) -/
 
-/-- default pickling of the state dict: the C pickler recurses into every object it can reach. With the root's
-    `next_element` left in the dict it reaches the first element, from there every other one through
-    `next_element`/`contents`/`parent`: at least one nested `save` per element. With the links dropped the dict holds
-    only flat values. -/
-def picklerWalk (cfg : Cfg) (rootLinked : Bool) (l : Loc) : Nat :=
-  if rootLinked && !cfg.dropLinks then sizeN l.node else 0
+/-- how many references to tree objects the state dict `__getstate__` returns still holds: whatever the parse left on
+    the parser stacks, plus the root's own links when it is linked into the element chain and they are not dropped -/
+def stateRefs (cfg : Cfg) (rootLinked : Bool) (parser : PState) : Nat :=
+  (leftover parser).length + (if rootLinked && !cfg.dropLinks then 1 else 0)
+
+/-- default pickling of the state dict: the pickler recurses into every object it can reach. From ONE tree object it
+    reaches every other one through `next_element`/`contents`/`parent`: at least one nested `save` per element. With
+    no tree object in the dict it sees only flat values. -/
+def picklerWalk (cfg : Cfg) (rootLinked : Bool) (parser : PState) (l : Loc) : Nat :=
+  if stateRefs cfg rootLinked parser = 0 then 0 else sizeN l.node
 
 /-- `pickle.dumps(soup)`: `__getstate__` (→ `decode`), then the pickler over the dict; `pickle.loads`: `__setstate__`
-    → `reset`, `_feed` on the stored markup -/
-def pickleDepth (cfg : Cfg) (nm : Names) (deep : Nat) (rootLinked : Bool) (l : Loc) : Nat :=
-  max (call (max (call (docDecodeDepth cfg l)) (picklerWalk cfg rootLinked l)))
+    → `reset`, `_feed` on the stored markup. `parser` = the parser-side state the document object carries (for a
+    parsed document: `feedState` of its markup). -/
+def pickleDepth (cfg : Cfg) (nm : Names) (deep : Nat) (rootLinked : Bool) (parser : PState) (l : Loc) : Nat :=
+  max (call (max (call (docDecodeDepth cfg l)) (picklerWalk cfg rootLinked parser l)))
       (call (call (feedDepth nm deep (toEventsL (kidsOf l.node)))))
 
 /-! ### the shape families of the witnesses -/
